@@ -94,6 +94,7 @@ def parseSetup? (toks : List String) : Option Setup := do
 
 def isOp (t : String) : Bool :=
   t.startsWith "tx:" || t.startsWith "fx:" || t.startsWith "sw:" || t.startsWith "pl:" || t == "ir"
+    || t.startsWith "setant:" || t.startsWith "gen:" || t.startsWith "reject:"
 
 def showE (e : PyErr) : String := "error:" ++ toString e
 
@@ -110,27 +111,36 @@ def parseSuOp? (op : String) : Option (SuOp GRat) :=
         let fft ← f.toNat?; let sel ← parseSel? s; let x ← parseSig? x
         pure (.fx x fft sel)
     | _ => none
+  else if op.startsWith "setant:" then (parseAnt? (op.drop 7).toString).map .setAnt
+  else if op.startsWith "gen:" then ((op.drop 4).toString.toNat?).map .gen
+  else if op == "reject:ValueError" then some (.rejected .ValueError)
+  else if op == "reject:TypeError" then some (.rejected .TypeError)
   else none
 
-/-- run SuChannel ops (a TdlChannel is a SuChannel that never gets a path loss) -/
-def runSu (su : Setup) : Su GRat → List String → List String
-  | _, [] => []
-  | c, tok :: rest =>
+/-- run SuChannel ops (a TdlChannel is a SuChannel that never gets a path loss);
+    `irAnt`: antenna set-up in force when the stored response was generated (its array shape) -/
+def runSu (su : Setup) : Option (Nat × Nat) → Su GRat → List String → List String
+  | _, _, [] => []
+  | irAnt, c, tok :: rest =>
     match parseSuOp? tok with
     | none => ["bad-op"]
     | some op =>
-      match c.step (procS su.seed) fftS op with
-      | .error e => [showE e]
-      | .ok (c', .y y) => ("y=" ++ showSig y) :: runSu su c' rest
-      | .ok (c', .ir r) => showIR su.ant r :: runSu su c' rest
-      | .ok (c', .unit) => "ok" :: runSu su c' rest
+      -- a rejected call leaves the object as it was and the history goes on (`Su.stepR`)
+      let generates : Bool := match op with | .tx _ => true | .fx _ _ _ => true | .gen _ => true | _ => false
+      match c.stepR (procS su.seed) fftS op with
+      | (c', .error e) => showE e :: runSu su irAnt c' rest
+      | (c', .ok (.y y)) => ("y=" ++ showSig y) :: runSu su (if generates then c.tdl.ant else irAnt) c' rest
+      | (c', .ok (.ir r)) => showIR irAnt r :: runSu su irAnt c' rest
+      | (c', .ok .unit) => "ok" :: runSu su (if generates then c.tdl.ant else irAnt) c' rest
 
 def parseMuSig? (s : String) : Option (List (List (List GRat))) := (s.splitOn "|").mapM parseSig?
 
 def showMuOut (y : List (List (List GRat))) : String := "y=" ++ showList showSig y "|"
 
 def parseMuOp? (op : String) : Option (MuOp GRat) :=
-  if op.startsWith "sw:" then some (.setSwitched (op == "sw:1"))
+  if op == "reject:ValueError" then some (.rejected .ValueError)
+  else if op == "reject:TypeError" then some (.rejected .TypeError)
+  else if op.startsWith "sw:" then some (.setSwitched (op == "sw:1"))
   else if op.startsWith "pl:" then (parseSig? (op.drop 3).toString).map .setPathloss
   else if op.startsWith "tx:" then (parseMuSig? (op.drop 3).toString).map .tx
   else if op.startsWith "fx:" then
@@ -149,15 +159,15 @@ def runMu (su : Setup) : Mu GRat → List String → List String
       match (List.range (c.nRx * c.nTx)).mapM (fun l => c.step (procS su.seed) fftS (.getIR (l / c.nTx) (l % c.nTx))) with
       | .ok rs => showList (fun (r : Mu GRat × MuOut GRat) => match r.2 with
                     | .ir i => showIR su.ant i | _ => "?") rs " & " :: runMu su c rest
-      | .error e => [showE e]
+      | .error e => showE e :: runMu su c rest
     else match parseMuOp? tok with
     | none => ["bad-op"]
     | some op =>
-      match c.step (procS su.seed) fftS op with
-      | .error e => [showE e]
-      | .ok (c', .y y) => showMuOut y :: runMu su c' rest
-      | .ok (c', .ir r) => showIR su.ant r :: runMu su c' rest
-      | .ok (c', .unit) => "ok" :: runMu su c' rest
+      match c.stepR (procS su.seed) fftS op with
+      | (c', .error e) => showE e :: runMu su c' rest
+      | (c', .ok (.y y)) => showMuOut y :: runMu su c' rest
+      | (c', .ok (.ir r)) => showIR su.ant r :: runMu su c' rest
+      | (c', .ok .unit) => "ok" :: runMu su c' rest
 
 def showInts (l : List Int) : String := showList toString l
 
@@ -165,7 +175,7 @@ def handle : List String → String
   | "su" :: toks =>
     match parseSetup? toks, (kv toks "link").bind String.toNat? with
     | some su, some link =>
-      " # ".intercalate (runSu su { tdl := Tdl.init su.taps su.ant su.jakes link, pl := none } (toks.filter isOp))
+      " # ".intercalate (runSu su su.ant { tdl := Tdl.init su.taps su.ant su.jakes link, pl := none } (toks.filter isOp))
     | _, _ => "bad-op"
   | "mu" :: toks =>
     match parseSetup? toks, (kv toks "nrx").bind String.toNat?, (kv toks "ntx").bind String.toNat? with
